@@ -130,6 +130,14 @@ pub struct TorrentMap<I: Ip> {
     torrent_gauge: ::metrics::Gauge,
 }
 
+#[cfg(aquatic_verif)]
+impl<I: Ip> TorrentMap<I> {
+    /// Number of torrents currently stored (verification hook)
+    pub fn verif_len(&self) -> usize {
+        self.torrents.len()
+    }
+}
+
 impl<I: Ip> TorrentMap<I> {
     fn new(worker_index: usize, ipv4: bool) -> Self {
         #[cfg(feature = "metrics")]
